@@ -17,6 +17,7 @@
 static const char *PROP = "C08";
 typedef struct { long hist, runs, calls, judged, skipped, viol, deaths, distinct; int samples_left; unsigned long long dh[1 << 16]; char sigs[64][96]; int printed[64]; int nsig; } shared_t;
 static shared_t *G;
+static const char *AS_PROP;
 static void note_distinct(unsigned long long h) { unsigned k = (unsigned)(h >> 20) & 0xffff; for (int t = 0; t < 64; t++) { unsigned s = (k + t) & 0xffff; if (G->dh[s] == h) return; if (!G->dh[s]) { G->dh[s] = h; G->distinct++; return; } } }
 static unsigned long long hmix(unsigned long long h, unsigned long long v) { h ^= v + 0x9E3779B97F4A7C15ULL + (h << 6) + (h >> 2); return h; }
 static void viol(const char *sig, const char *cs, const char *fmt, ...) {
@@ -24,7 +25,11 @@ static void viol(const char *sig, const char *cs, const char *fmt, ...) {
     G->viol++;
     int k; for (k = 0; k < G->nsig; k++) if (!strcmp(G->sigs[k], sig)) break;
     if (k == G->nsig) { if (G->nsig >= 64) return; snprintf(G->sigs[G->nsig++], 96, "%s", sig); }
-    if (G->printed[k]++ < 3) out_violation(PROP, sig, cs, "%s", buf);
+    if (G->printed[k]++ < 3) {
+        /* the refact-lwork family judged for C08 (a re-factorization in the caller's workspace must be correct or report info > n): same oracle, reported under the property asked for */
+        if (AS_PROP && !strncmp(sig, "C14:lwork:", 10)) { char s2[128]; snprintf(s2, sizeof s2, "%s:refactor-in-workspace:%s", AS_PROP, sig + 10); out_violation(AS_PROP, s2, cs, "%s", buf); }
+        else out_violation(AS_PROP ? AS_PROP : PROP, sig, cs, "%s", buf);
+    }
 }
 
 /* ------------------------------------------------------------------ the fixed patterns and value sets */
@@ -298,6 +303,7 @@ int main(int argc, char **argv) {
         /* C14 family refact-lwork (added after seeded change C14/3 was missed): a first factorization with ONE thread into a user workspace of every size
            (steps of 8 bytes up to 1.15 x the smallest size that lets the whole history succeed), then a re-factorization in the same workspace with 2-3
            threads and new values; each (history, size) in a forked child */
+        if (strcmp(PROP, "C14")) AS_PROP = PROP;
         PROP = "C14"; P_ = arg_int(argc, argv, "--pat", 0); MEM_ = 1; int isl = 0, nsl = 1; sscanf(arg_str(argc, argv, "--slice", "0/1"), "%d/%d", &isl, &nsl);
         double deadline = atof(arg_str(argc, argv, "--deadline", "1e9")), t0 = now_s(); int step = arg_int(argc, argv, "--step", 8); int tight = arg_int(argc, argv, "--tight", 0);
         static const char *HS[6] = { "F0a,R1nb", "F0a,R1yb", "F1a,R0nc", "F0a,R0yc", "F1a,R4yb,R0nc", "F0b,R1na" };
@@ -320,7 +326,7 @@ int main(int argc, char **argv) {
                 if (idx % nsl != isl) continue;
                 if (now_s() - t0 > deadline) { complete = 0; break; }
                 char cs[160]; snprintf(cs, sizeof cs, "pat=%d mem=1 lwork=%ld f7=%d f8=%d ops=%s", P_, lw, TIGHT7, TIGHT8, HS[h]);
-                fflush(NULL); vf_sh->where[0] = 0; pid_t pid = fork();
+                fflush(NULL); vf_sh->where[0] = 0; long calls0 = G->calls; pid_t pid = fork();
                 if (pid == 0) { vf_install_fault_handlers(); vf_case_timer2(20, 120); LW_OVERRIDE = lw; int fa; snprintf((char *)vf_sh->note, sizeof vf_sh->note, "%s", cs); run_history(P_, 1, ops, nops, cs, &fa); fflush(NULL); _exit(fa < 0 ? 0 : 10); }
                 int st = 0; waitpid(pid, &st, 0); vf_last_child = pid; runs++;
                 if (WIFEXITED(st) && WEXITSTATUS(st) == 0) ok++;
@@ -328,11 +334,13 @@ int main(int argc, char **argv) {
                 else { int kind, code; if (WIFSIGNALED(st)) { kind = VF_SIGNAL; code = WTERMSIG(st); } else if (WEXITSTATUS(st) == 99) { kind = VF_ASAN; code = 99; } else if (WEXITSTATUS(st) == 97) { kind = VF_TIMEOUT; code = 97; } else if (WEXITSTATUS(st) == 98) { kind = VF_FAULT; code = 98; } else { kind = VF_EXIT; code = WEXITSTATUS(st); }
                     char cd[160], sig[220]; vf_crash_desc(kind, code, cd, sizeof cd); const char *site = strchr(cd, '@');
                     if (kind == VF_EXIT && (code == 1 || code == 255)) { memfail++; continue; }        /* the library's abort path (diagnostic on stderr) */
+                    /* judged for C08: only a death AFTER the first factorization has returned (a first factorization that dies in a too small workspace is the known finding of C14) */
+                    if (AS_PROP && G->calls == calls0) { deaths++; G->deaths++; continue; }
                     snprintf(sig, sizeof sig, "C14:lwork:crash:%s", site ? site : cd); deaths++; G->deaths++; viol(sig, cs, "memory error instead of info > n or the abort path (%s)", cd); }
                 note_distinct(hmix(hmix((unsigned long long)lw, (unsigned long long)h * 131 + (unsigned long long)P_), (unsigned long long)st));
             }
         }
-        out_stats(PROP, "\"family\":\"refact-lwork\",\"pat\":%d,\"slice\":\"%d/%d\",\"complete\":%s,\"runs\":%ld,\"judged\":%ld,\"violations\":%ld,\"distinct_outcomes\":%ld,\"successes\":%ld,\"returns_info_gt_n\":%ld,\"crashes\":%ld,\"wall_s\":%.2f",
+        out_stats(AS_PROP ? AS_PROP : PROP, "\"family\":\"refact-lwork\",\"pat\":%d,\"slice\":\"%d/%d\",\"complete\":%s,\"runs\":%ld,\"judged\":%ld,\"violations\":%ld,\"distinct_outcomes\":%ld,\"successes\":%ld,\"returns_info_gt_n\":%ld,\"crashes\":%ld,\"wall_s\":%.2f",
                   P_, isl, nsl, complete ? "true" : "false", runs, runs, G->viol, G->distinct, ok, memfail, deaths, now_s() - t0);
         return 0;
     }
